@@ -122,11 +122,22 @@ impl Stats {
 pub fn explore_all(
   dev_bound: u32,
   max_execs: u64,
+  body: impl FnMut(&mut Chooser) -> bool,
+) -> Stats {
+  explore_from(&[], dev_bound, max_execs, body)
+}
+
+/// Like `explore_all` but only the subtree below the fixed choice prefix
+/// `root` (used to split one big tree over several workers).
+pub fn explore_from(
+  root: &[u32],
+  dev_bound: u32,
+  max_execs: u64,
   mut body: impl FnMut(&mut Chooser) -> bool,
 ) -> Stats {
   let mut stats = Stats::default();
-  let mut prefix: Vec<u32> = Vec::new();
-  let mut shared = 0usize; // nodes of this prefix already counted
+  let mut prefix: Vec<u32> = root.to_vec();
+  let mut shared = root.len(); // nodes of this prefix already counted
   loop {
     let mut ch = Chooser::new(prefix.clone(), dev_bound);
     let go_on = body(&mut ch);
@@ -160,7 +171,7 @@ pub fn explore_all(
       }
     }
     let mut next: Option<usize> = None;
-    for i in (0..tr.len()).rev() {
+    for i in (root.len().min(tr.len())..tr.len()).rev() {
       let p = tr[i];
       if p.chosen + 1 < p.n {
         if p.costly && p.chosen == 0 && devs[i] >= dev_bound {
